@@ -448,15 +448,6 @@ def lres_case(rng):
             'follow': rng.choice([1, 1, 0])}
 
 
-# the witnesses of F32 / F32b (findings/C11.json), replayed on every run
-F32_WITNESSES = [
-    {'k': 'static', 'fl': 'links', 'mode': 'wsgi', 'rn': 'root', 'variant': 'std', 'method': 'GET',
-     'path': '/static/../other/lnk/../../root/only-in-x.txt', 'tmpl': 'F32'},
-    {'k': 'sess_wsgi', 'fl': 'links', 'store': 'sess', 'spelling': 'abs', 'id': '/../../other/lnk/../../sess/session-v',
-     'action': 'write', 'tmpl': 'F32b', 'cstyle': 'auto'},
-]
-
-
 # ---- path algebra / resolution ------------------------------------------------------------------
 ALPHA = ['/', '/', '/', '.', '.', '..', 'a', 'b', '\\', '\x00', '%', '%2e', '%2f', '%c0%af', '%e2%80%a5', '%e2%80',
          '%f0%9f', 'é', '2', 'f', 'E', '%ff', '%80', '%ed%a0%80', '%f4%90%80%80', '%e0%80%af', '%25', '%f0%9f%98%80',
